@@ -270,6 +270,26 @@ def r10_5(ctx):
     ctx.check(R, any(k == 0 for k, _ in seen) and any(k == 1 for k, _ in seen), 'both-arms', 'verify() does not distinguish stored / missing checksum', fn=f, detail=sorted(seen))
 
 
+def r10_7(ctx):
+    """files of versions 1 and 2 carry no checksum: verify() answers ChecksumMissing for them by contract.  A reader that calls verify()
+    on its way to opening a file (other than the verify command / verify wrappers themselves) turns "no checksum" into "cannot be read"."""
+    R = ctx.rule('R10.7', 'opening a file does not depend on verify(): only the verify command and verify wrappers call it', floor=1)
+    n = 0
+    for cr, allowed in ((ctx.lib, lambda p: p.rsplit('::', 1)[-1] == 'verify'), (ctx.bin, lambda p: 'verify' in p.lower())):
+        if cr is None:
+            continue
+        for f in cr.fn_list:
+            if f.from_expansion:
+                continue
+            for _, t in f.calls():
+                cal = f.callee(t) or ''
+                if cal.endswith('Fst::<D>::verify') or (cal.endswith('::verify') and ('Map' in cal or 'Set' in cal or 'Fst' in cal)):
+                    n += 1
+                    ctx.check(R, allowed(f.path), 'verify-caller:' + f.path, '%s calls verify() although it is not the verify command: files written by versions 1 and 2 (no checksum, ChecksumMissing by contract) can no longer be used through it' % f.path, fn=f, at=t.get('span'))
+    if n == 0:
+        ctx.undecided(R, 'verify-caller', 'no caller of verify() found (the verify command was redesigned)')
+
+
 def r10_6(ctx):
     R = ctx.rule('R10.6', 'single constructor: the FST type is built only in new (derived Clone excepted); map_data goes through new', floor=2)
     lib = ctx.lib
@@ -301,6 +321,7 @@ def run(ctx):
     ctx.step(r10_3, ctx)
     ctx.step(r10_5, ctx)
     ctx.step(r10_6, ctx)
+    ctx.step(r10_7, ctx)
     # files written by other releases are read correctly only if the format constants (version, index threshold, sentinels,
     # common-input tables) are the documented ones: R09.1
     from rules import formatrules
